@@ -25,7 +25,10 @@ EXPLANATION = (
     "(grammage, ozone) are the REMAINING sums towards the detector (reverse cumulative sums) while the shower "
     "age uses the traversed sum (forward); R06.5 the Hillas angular integration contracts "
     "[step, ring] x [step, energy] -> [step, ring, energy] and sums the product with the per-step, per-wavelength "
-    "yield over all four axes; R06.6 every early exit returns exact zeros of the kernel's dtype. NOT decided: "
+    "yield over all four axes; R06.6 every early exit returns exact zeros of the kernel's dtype; R06.7-R06.10 the "
+    "model's formulas, validity filter, atmosphere bands and ring limits in normal form against referenced formulas; "
+    "R06.11 the assembly of the two results (ring sized at argmax of the particle number, density = 0.5 S / ring area "
+    "x squared distance ratio, angle = degrees(photon-weighted mean + spread)). NOT decided: "
     "the 10 % / 0.5 % / 1 % agreement with a double-precision evaluation, finiteness for every input."
 )
 
